@@ -209,7 +209,7 @@ def seq_replay(footprint):
     return replay
 
 
-ALL_OPS = {"append", "import", "remove", "setnow", "gcstep", "drain", "reopen", "readsync", "read", "get", "head"}
+ALL_OPS = {"append", "import", "remove", "setnow", "gcstep", "drain", "reopen", "readsync", "read", "get", "head", "rawdump"}
 READS = {"readsync", "read", "get", "head"}
 
 P_CTX = dict(op_w={"register": 5, "append": 8, "import": 5, "remove": 5, "tick": 0.5, "gc": 1, "reopen": 3, "badctx": 1},
@@ -430,12 +430,12 @@ REGISTRY = {
         "accepted iff zero context, stored Forever, registered; the registry is a function of the live frames at every "
         "reachable state (imports included) and is unchanged by reopen. Tie: registration/removal/import/reopen histories "
         "on the real Store with real process restarts."),
-    "C08": seq_entry("Props/C08.v", P_TTL, {"get", "readsync", "read", "head"}, 250, 5000,
+    "C08": seq_entry("Props/C08.v", P_TTL, {"get", "readsync", "read", "head", "gcstep", "drain"}, 250, 5000,
         "Coq: every way a frame can leave the live list in one step (explicit remove, overwrite by import, GC Remove "
         "task, GC CheckHead task of exactly its (context, topic)); CheckHead evicts only frames outside the K newest of "
         "exactly (c,t) and never touches other topics/contexts; reads never remove; Remove tasks are queued only for "
         "expired frames. Tie: TTL-heavy histories with clock stepping to expiry-1/expiry/expiry+1 and single GC steps."),
-    "C09": seq_entry("Props/C09.v", P_TTL, {"append", "get", "readsync", "read", "head", "reopen"}, 250, 5000,
+    "C09": seq_entry("Props/C09.v", P_TTL, {"append", "get", "readsync", "read", "head", "reopen", "gcstep", "drain"}, 250, 5000,
         "Coq: ephemeral appends change no partition/registry/queue; expired time:N frames are returned by neither read "
         "path at any point of any admissible history and are queued for removal by an unlimited read; a head:N "
         "collection leaves <= N frames of (c,t), the newest ones. Tie: as C08 plus both read paths."),
@@ -820,6 +820,17 @@ def c04_run(which):
                 elif x["kind"] == "harness-error":
                     ctx.violation(f"crash harness error at call {x['n']}: rc={x.get('rc')} {x.get('err', '')[-300:]}",
                                   dict(engine="K", script=script, theorem_or_correspondence="engine K"), no_input=True)
+        # the HTTP routes: every mutating request is ONE journal commit followed by one fsync (an import that overwrites a
+        # stored id included) - the server runs under the shim in counting mode
+        ap = robust(lambda _sd: V.http_write_atomicity_probe(), "http write atomicity probe")(0)
+        for kind in ("import_fresh", "import_overwrite", "append", "remove"):
+            if tuple(ap.get(kind, ())) != (1, 1):
+                ctx.violation(f"the HTTP request `{kind}` wrote {ap.get(kind)} (journal writes, fsyncs) - one atomic batch and one fsync are "
+                              f"what makes the operation all-or-nothing at every crash instant (all kinds: "
+                              f"{ {k: ap.get(k) for k in ('import_fresh', 'import_overwrite', 'append', 'remove')} })",
+                              dict(engine="K", probe="http_write_atomicity_probe", result=ap))
+                break
+        ctx.coverage["http_write_atomicity_probe"] = ap
         ctx.coverage.update(dict(
             evaluations=tot, distinct_nontrivial=tot - states.get("no-crash", 0),
             rule="one evaluation = one crash image: a generated workload (append/import/remove/GC, small and >8KiB frames, "
